@@ -405,3 +405,22 @@ CHECKS = {
         "technique": "TLA+ spec MergedRIB + TLC exhaustive check; behaviour replay (M1) and trace validation (M2) against mergedlocrib",
     },
 }
+
+# additions made when checks were strengthened after seeded changes slipped past their first version
+_APPEND = {
+    "C03": " The head paths come in two neighbour-AS classes (first AS of the AS_PATH) that must not influence the decision: MED is "
+           "compared across all neighbour ASes.",
+    "C06": " At server level (BGPFSM, adapter session): an UPDATE whose AS_PATH contains the local AS on a real session, import policy "
+           "flips and session resets, alone and next to a second established session of the same VRF (the loop-detection state of a "
+           "VRF is shared and reference counted).",
+    "C07": " One family runs next to a second established session of the same VRF (the local AS must keep taking part in loop "
+           "detection); NOTIFICATIONs come plain, with data and with codes / subcodes the speaker does not know; route-reflector-client "
+           "configurations add the cluster id's contribution.",
+    "C12": " The export side is replayed on RibOut; at server level BGPFSM has SetImport / SetExport / Originate "
+           "(BGPServer.ReplaceImportFilterChain / ReplaceExportFilterChain in every session state, a route from the peer and one from "
+           "another source) so that the session's skip-if-equal logic is bound too.",
+    "C25": " Later additions: Unregister of a client that is not registered (all three tables) and DisposePeer while a Cease is "
+           "already queued for an FSM in its reconnect pause.",
+}
+for _k, _v in _APPEND.items():
+    CHECKS[_k]["text"] = CHECKS[_k]["text"].replace("Export side and the server-level skip rule are added by RibOut / the session specs as they are built.", "") + _v
